@@ -170,6 +170,8 @@ class SessionRun(ClientRun):
                     res = list(r)
                 elif type(r).__name__ == "ESPHomeBluetoothGATTServices":
                     res = [s.handle for s in r.services]
+                elif type(r).__name__ == "VoiceAssistantAnnounceFinished":
+                    res = [1 if r.success else 0]
                 else:
                     self.op_results[op.base] = r
                     if callable(r) or isinstance(r, tuple):
@@ -272,6 +274,8 @@ class SessionRun(ClientRun):
                         run.leftover.discard(oid)
 
                 coro = c.bluetooth_device_connect(A, on_state, timeout=TBLE, disconnect_timeout=TDISC)
+            elif k == "announce":
+                coro = c.send_voice_assistant_announcement_await_response("media", TBLE, "text")
             elif k == "disconnect":
                 coro = c.bluetooth_device_disconnect(A, timeout=TBLE)
             elif k == "pair":
@@ -718,6 +722,16 @@ def c17_systematic(rng: random.Random, quick: bool) -> list:
                             sch += [("ev", "va_release", n, results[n - 1])] + g
                         sch += [("idle",), ("ev", "msgs", [{"k": "vareq", "f": True, "d": 50}]), ("idle",), ("ev", "va_release", nst + 1, "port"), ("idle",)]
                         out.append(sch)
+    # an announcement waiting for its "finished" next to a voice-assistant subscription that listens for the same
+    # message: each gets it, in either order of arrival of the two, and the subscription outlives the call
+    for first in ("call", "sub"):
+        for g in ([], [("iter", 1)], [("idle",)]):
+            a = [("ev", "op", "o1", "announce", 0, 0)]
+            b = [("ev", "va_sub", "port", False)]
+            sch = (a + g + b if first == "call" else b + g + a) + g
+            sch += [("ev", "msgs", [{"k": "vafin", "d": 1}]), ("idle",), ("ev", "msgs", [{"k": "vafin", "d": 0}]), ("idle",),
+                    ("ev", "op", "o2", "announce", 0, 0), ("idle",), ("ev", "va_unsub"), ("ev", "msgs", [{"k": "vafin", "d": 1}, {"k": "vafin", "d": 0}]), ("idle",), ("tick",)]
+            out.append(sch)
     # voice assistant: handler outcomes x audio x unsubscribe at every point
     for mode in ("port", "noport", "block"):
         for audio in (False, True):
